@@ -100,7 +100,7 @@ package node
 //@   requires[ast] wfAST(self)
 //@   requires[cr]  crOK(cr)
 //@   requires[flags] !(fl.Data().Discard && fl.Data().Returning)   // a result is either dropped or returned, never both
-//@   requires[ctx;C05,C12,C02,C09,C17] !isExpr(self) && fl.Data().InFor ==> fl.Data().CtxLo <= fl.Data().CtxHi && fl.Data().CtxHi < fl.Data().CtxID   // enclosing loops own ids CtxLo..CtxHi, new ones start at CtxID
+//@   requires[ctx;C05,C12,C02,C09,C17,C01] !isExpr(self) && fl.Data().InFor ==> fl.Data().CtxLo <= fl.Data().CtxHi && fl.Data().CtxHi < fl.Data().CtxID   // enclosing loops own ids CtxLo..CtxHi, new ones start at CtxID
 //@   requires[stmt_depth] !isExpr(self) ==> fl.Data().OpDepth == 0   // statements (and builtin bodies) are compiled at operator depth 0
 //@   modifies *cr.CS, allelems(*cr.CS), *cr.DS, allelems(*cr.DS), mapof(*cr.Dbg)
 //@   ensures[K2_code]  csKept(cr) && csNewWF(cr)
@@ -135,7 +135,9 @@ package node
 //@   assumes[unfold] exprOK(i.Ary) && exprOK(i.From) && exprOK(i.To)
 //@ func (Yield).byteCode [C05,C12] implements ByteCoder.byteCode
 //@   assumes[unfold] exprOK(y.Target)
-//@ func (Return).byteCode [C05,C12] implements ByteCoder.byteCode
+//@ func (Return).byteCode [C05,C12,C09,C02] implements ByteCoder.byteCode
+//@   atcall bytecode.EncodeSrc(0, bytecode.AddrImm, with (callee_srcAddr int) requires[return_destroys_from_lowest_loop_context;C09,C02] callee_srcAddr == fl.Data().CtxLo   // C09/C02: a return inside for loops destroys the contexts CtxLo..CtxHi of all enclosing loops
+//@   atcall bytecode.EncodeSrc(1, bytecode.AddrImm, with (callee_srcAddr int) requires[return_destroys_to_highest_loop_context;C09,C02] callee_srcAddr == fl.Data().CtxHi
 //@   assumes[unfold] exprOK(r.Target)
 //
 //@ type Constanter.Constant [C05,C12] pure trusted
